@@ -118,7 +118,7 @@ func (s *Server) setupEndpoints() {
 	s.Mux.Handle("/pair-verify", endpoint.NewPairVerify(s.context, s.database))
 	s.Mux.Handle("/accessories", s.Authenticate(http.HandlerFunc(s.Accessories)))
 	s.Mux.Handle("/characteristics", s.Authenticate(http.HandlerFunc(s.Characteristics)))
-	s.Mux.Handle("/pairings", endpoint.NewPairing(pairingController, s.emitter))
+	s.Mux.Handle("/pairings", s.Authenticate(endpoint.NewPairing(pairingController, s.emitter)))
 	s.Mux.HandleFunc("/identify", s.Identify)
 }
 
